@@ -18,6 +18,11 @@ def plan(tier):
     p.append((S.T2(params={"max_tries": 3, "max_concurrent_tries": 1}, D=DL).variant("/mt=3,mct=1"), 1 if q else 2, 1))
     p.append((S.T2("net1 net2 net3", params={"max_tries": 3, "max_concurrent_tries": 2}, D=DL).variant("/mt=3,mct=2"), 1 if q else 2, 1))
     p.append((S.T2("net1 net2 net3", params={"max_tries": 2}, D=DL).variant("/mt=2"), 1 if q else 2, 1))
+    # every (max_tries, max_concurrent_tries) combination incl. an explicit 0, three workers converging on a short chain
+    for mt in (1, 2, 3):
+        for mct in (0, 1, 2, 3):
+            p.append((S.T1("net1 net2 net3", shared=S.VM1_CHAIN[:2], params={"max_tries": mt, "max_concurrent_tries": mct}, D=(1.0, 3.0)).variant(f"/3workers,mt={mt},mct={mct}"),
+                      1 if q else 2, 0.4))
     p.append((S.T2(params={"pool_scope": "own shared"}, D=DL).variant("/scope=own+shared"), 1 if q else 2, 1))
     p.append((S.T2("cluster1.net6 cluster1.net7 cluster2.net6", D=DL).variant("/clusters"), 1 if q else 2, 2))
     p.append((S.T2("cluster1.net6 cluster1.net7 cluster2.net6", params={"pool_scope": "own swarm shared"}, D=DL).variant("/clusters,scope=own+swarm+shared"), 1 if q else 2, 2))
